@@ -211,11 +211,22 @@ def check(case: Dict[str, Any]) -> Outcome:
                     raise RuntimeError(emsg)
                 return payload
 
+            schema: Dict[str, Any] = {}
+            if case.get("schema_required") is not None:
+                # a schema that names required fields; the user's answer (the payload) may or may not contain them
+                schema = {"type": "object", "properties": {k_: {"type": "string"} for k_ in case["schema_required"]}, "required": case["schema_required"]}
+
             async def go():
-                return await ElicitationClient(user).handle_elicitation_request({"jsonrpc": "2.0", "id": i, "method": "elicitation/create", "params": {"message": "q", "schema": {}}})
+                return await ElicitationClient(user).handle_elicitation_request({"jsonrpc": "2.0", "id": i, "method": "elicitation/create", "params": {"message": "q", "schema": schema}})
 
             w = json.loads(json.dumps(run_virtual(go)))
-            exp = {"kind": "error", "id": i} if em.endswith("error") else {"kind": "result", "id": i, "result": {"data": payload, "cancelled": False}}
+            if em.endswith("error"):
+                exp = {"kind": "error", "id": i}
+            elif case.get("schema_required") is not None:
+                exp = {"id": i}  # a result or an error - but one valid response either way
+                out.classes = out.classes + ("elicitation:answer-vs-required-fields",)
+            else:
+                exp = {"kind": "result", "id": i, "result": {"data": payload, "cancelled": False}}
         elif em == "deferred-progress-requests":
             # build several requests first, serialise afterwards: each must keep its own token and params
             toks = case.get("tokens", ["t1", 2])
@@ -501,6 +512,10 @@ def cases(draw, emitters: List[str]):
         case["tokens"] = draw(st.lists(st.one_of(st.integers(0, 9), st.sampled_from(["a", "b", "tok-\u00e9"])), min_size=2, max_size=4, unique_by=lambda t: (type(t).__name__, t)))
         case["no_params"] = draw(st.booleans())
         case["id"] = draw(st.one_of(st.integers(0, 1000), st.sampled_from(["r", "7"])))
+    if em == "ElicitationClient.handle_elicitation_request" and draw(st.booleans()):
+        case["schema_required"] = draw(st.sampled_from([[], ["name"], ["name", "k"], "name", None, [1]])) if draw(st.integers(0, 4)) else None
+        if case["schema_required"] is None:
+            del case["schema_required"]
     if em == "stdio-writer":
         if draw(st.integers(0, 3)) == 0:
             case["pad"] = draw(st.sampled_from([30000, 66000, 70000, 140000]))
